@@ -58,9 +58,11 @@ def header(shape, values, mate, index='ATCACG'):
     if shape == 'SCMO':
         # a read that already went through the demultiplexer once: k:v;k:v header as the bulk strategy writes it
         # (the instrument keeps its '@', the library of that first pass is part of it)
-        exp.update({'Fi': filt, 'CN': ctrl, 'aa': index})
+        # it also carries a quality tag of that first pass which no strategy sets itself (hexamer qualities H1, header-safe
+        # letters): a second pass has to hand it on as it is, so that it still decodes to the ORIGINAL phred characters
+        exp.update({'Fi': filt, 'CN': ctrl, 'aa': index, 'H1': unletters(FIRST_PASS_H1)})
         return (f'@Is:@{inst};RN:{run};Fc:{fc};La:{lane};Ti:{tile};CX:{x};CY:{y};Fi:{filt};CN:{ctrl};aa:{index}'
-                f';LY:{PREVIOUS_LIBRARY}'), exp
+                f';LY:{PREVIOUS_LIBRARY};H1:{FIRST_PASS_H1}'), exp
     raise KeyError(shape)
 
 
@@ -80,6 +82,9 @@ def scd_name(values, variant):
     for k, v in attrs:
         exp[k] = unletters(v) if k in PHRED_TAGS else v
     return coords + ';' + ';'.join(f'{k}:{v}' for k, v in attrs), exp
+
+
+FIRST_PASS_H1 = 'AAAAAEazZ'
 
 
 def library(n, offset=0):
